@@ -156,6 +156,11 @@ inductive Op where
   | stream (c : Nat) (chunks : List Nat) (rerr : Bool)   -- reader returns these chunks, then EOF or an error
   | xmlBlob (c n : Nat)
   | jsonpBlob (c cb n : Nat)            -- cb = length of the callback name
+  -- optional-interface entry points a handler or net/http can reach on *echo.Response
+  | flushRC                             -- http.NewResponseController(c.Response()).Flush()
+  | flushFE                             -- `FlushError()` if the Response offers it (interface assertion), else Flush()
+  | unwrap                              -- c.Response().Unwrap(): hands out the wrapped writer, touches nothing
+  | copy (chunks : List Nat) (rerr : Bool)  -- io.Copy(c.Response(), reader without WriteTo)
 deriving DecidableEq, Repr, Inhabited
 
 /-- content-type ids -/
@@ -208,6 +213,16 @@ def step (s : St) : Op → St × Ret
     let s := writeHeader s c
     let (s, err) := writes s [cb + 1, n, 2]
     (s, ⟨0, err⟩)
+  -- `echo.Response` has neither `FlushError` nor `ReadFrom`: http.ResponseController finds
+  -- http.Flusher and lands in `Response.Flush`; io.Copy finds no io.ReaderFrom and runs its
+  -- copy loop through `Response.Write` (one Write per non-empty chunk, stop at the first error),
+  -- whether or not the UNDERLYING writer implements io.ReaderFrom.
+  | .flushRC => (flush s, {})
+  | .flushFE => (flush s, {})
+  | .unwrap => (s, {})
+  | .copy chunks rerr =>
+    let (s, err) := writes s (chunks.filter (· ≠ 0))
+    (s, ⟨0, err || rerr⟩)
 
 /-- the state after a whole program -/
 def run (s : St) (prog : List Op) : St := prog.foldl (fun s o => (step s o).1) s
@@ -257,6 +272,10 @@ def pOp : P Op := do
   | 10 => do let c ← nat; let ch ← list nat; let e ← bool; pure (.stream c ch e)
   | 11 => do let c ← nat; let n ← nat; pure (.xmlBlob c n)
   | 12 => do let c ← nat; let cb ← nat; let n ← nat; pure (.jsonpBlob c cb n)
+  | 13 => pure .flushRC
+  | 14 => pure .flushFE
+  | 15 => pure .unwrap
+  | 16 => do let ch ← list nat; let e ← bool; pure (.copy ch e)
   | _ => failure
 
 def encEv : Ev → List String
